@@ -344,3 +344,17 @@ func hasNonConstFun(s string) bool {
 	}
 	return false
 }
+
+func hasTypeParam(t types.Type) bool {
+	switch u := types.Unalias(t).(type) {
+	case *types.TypeParam:
+		return true
+	case *types.Slice:
+		return hasTypeParam(u.Elem())
+	case *types.Pointer:
+		return hasTypeParam(u.Elem())
+	case *types.Map:
+		return hasTypeParam(u.Key()) || hasTypeParam(u.Elem())
+	}
+	return false
+}
